@@ -6,7 +6,7 @@
 Outcome: dict(violation=None|{cls,msg,attrs,step}, digest, nontrivial, stats, extra)
 """
 from ..common import rng_for, digest, canon, tuplify, same
-from .model import Spec, path_str
+from .model import Spec, Model, path_str
 from .gen import swarm_config, gen_spec, HistoryGen
 from .execute import Exec, Violation, PROPAGATING
 
@@ -223,3 +223,379 @@ class C03:
 
 
 DRIVERS["C03"] = C03
+
+
+# ---------------------------------------------------------------------------
+# C18: crash at every container access / callback of an update, then recover
+# ---------------------------------------------------------------------------
+from ..containers import _Ctx, InjectedFault
+from .model import model_step, ModelReject
+
+
+def replay_prefix(xd, spec, cfg, ops, upto):
+    """A fresh Exec with ops[:upto] applied fault-free (same process, same names -> same schedule)."""
+    ex = Exec(xd, spec, cfg["g_restricted"], cfg["salt"])
+    for op in ops[:upto]:
+        st = ex.step(op)
+        if st is not None and st.exc is not None:
+            raise Violation("C18.prefix_exception", "fault-free prefix op %s raised %s: %s" % (op[0], type(st.exc).__name__, st.exc))
+    return ex
+
+
+def canonical_assignment(model, op):
+    """inpl -> the equivalent setv / sete (so that repeating it is idempotent)."""
+    if op[0] != "inpl":
+        return op
+    _, path, o, operand = op[:4]
+    from .model import PYOPS
+    if path in model.defs:
+        return ("sete", path, ("bin", o, model.defs[path], operand), "item")
+    if operand[0] == "lit":
+        return ("setv", path, PYOPS[o](model.val[path], operand[1]), "item")
+    return ("sete", path, ("bin", o, ("lit", model.val[path]), operand), "item")
+
+
+class C18:
+    prop = "C18"
+    shrink_parts = ("crash", "ops")
+    MAX_K = 24
+
+    @staticmethod
+    def generate(ctx, run):
+        rc = rng_for(ctx.seed, "C18", run, "cfg")
+        knob_pop = rc.random() < 0.25
+        wo = {"unreg": 3, "regf": 8, "unregf": 1, "setc": 4, "inpl": 6,
+              "regk": (8 if knob_pop else 0), "unregk": (1 if knob_pop else 0)}
+        cfg = swarm_config(rc, ctx.tier, weights_over=wo, g_restricted=True)
+        cfg["n_ops"] = min(cfg["n_ops"], 30)
+        spec = gen_spec(rng_for(ctx.seed, "C18", run, "spec"), cfg)
+        hg = HistoryGen(rng_for(ctx.seed, "C18", run, "ops"), cfg, spec)
+        ops = hg.history()
+        # crash points: propagating assignments, biased to the ones with many triggered tasks
+        m = Model(spec)
+        cand = []
+        for i, op in enumerate(ops):
+            try:
+                info = model_step(m, op, True)
+            except ModelReject:
+                continue
+            if op[0] in ("setv", "sete", "inpl", "setc") and info.trig:
+                cand.append((i, len(info.trig)))
+        rp = rng_for(ctx.seed, "C18", run, "crash")
+        crash = []
+        if cand:
+            cand.sort(key=lambda x: (-x[1], x[0]))
+            crash.append(cand[0][0])
+            rest = [c[0] for c in cand[1:]]
+            rp.shuffle(rest)
+            crash.extend(rest[:2])
+        return {"cfg": cfg, "spec": spec.to_json(), "ops": ops, "crash": sorted(crash), "double": rp.random() < 0.4}
+
+    @staticmethod
+    def execute(ctx, case):
+        prop = "C18"
+        xd = ctx.xd
+        spec = Spec.from_json(case["spec"])
+        cfg = case["cfg"]
+        ops = case["ops"]
+        stats = {}
+        nfaults = 0
+
+        def count(k, n=1):
+            stats[k] = stats.get(k, 0) + n
+
+        ci = None
+        try:
+            for ci in case["crash"]:
+                if ci >= len(ops):
+                    continue
+                # ---- reference (fault-free) run of the update --------------------------------
+                ref = replay_prefix(xd, spec, cfg, ops, ci)
+                try:
+                    op = canonical_assignment(ref.model, ops[ci])
+                except Exception:
+                    continue
+                strict = (op[0] == "setc") or (op[0] == "setv" and op[1] not in ref.model.defs)
+                st = ref.step(op)
+                if st is None or st.exc is not None or not st.info.trig:
+                    continue
+                try:
+                    ref.check_contents(st.info.values, "fault-free reference run of op %d" % ci, st.info, prop)
+                except Violation:
+                    continue        # C01's business
+                W = C18._norm(ref.world, st.trace)
+                post = ref.world.contents()
+                has_knob = any(t[0] == "k" for t in st.info.trig)
+                count("updates_crashed")
+                if has_knob:
+                    count("updates_with_linear_knob")
+                for kind in ("w", "r", "act"):
+                    pos = [j for j, ev in enumerate(W) if ev[0] == kind]
+                    ks = list(range(len(pos)))
+                    if len(ks) > C18.MAX_K:
+                        step = len(ks) / float(C18.MAX_K)
+                        ks = sorted(set(int(x * step) for x in range(C18.MAX_K)))
+                    for k in ks:
+                        sub = replay_prefix(xd, spec, cfg, ops, ci)
+                        before = O.snapshot(sub.world)
+                        where = "op %d (%s %s) with fault %s#%d" % (ci, op[0], path_str(op[1]), kind, k)
+                        fst = sub.step(op, fault={"kind": kind, "n": k, "fired": False, "tag": k})
+                        nfaults += 1
+                        count("fault:%s_raises" % {"w": "write", "r": "read", "act": "action"}[kind])
+                        C18._check_faulted(sub, fst, W, pos[k], kind, before, strict, where, has_knob)
+                        # optionally a second faulty attempt in a row
+                        if case.get("double") and len(ks) > 1:
+                            k2 = ks[(ks.index(k) * 7 + 3) % len(ks)]
+                            tr, exc = run_traced(lambda: sub.world.apply(op), {"kind": kind, "n": k2, "fired": False, "tag": k2})
+                            nfaults += 1
+                            count("fault:second_in_a_row")
+                            fst2 = type(fst)()
+                            fst2.op, fst2.info, fst2.trace, fst2.exc = op, fst.info, tr, exc
+                            mid = O.snapshot(sub.world) if strict else None
+                            C18._check_faulted(sub, fst2, W, pos[k2], kind, before if strict else None, strict,
+                                               where + " then #%d" % k2, has_knob)
+                        # ---- fault-free repeat ---------------------------------------------------
+                        tr, exc = run_traced(lambda: sub.world.apply(op))
+                        if exc is not None:
+                            raise Violation(prop + ".repeat_exception", "%s: the fault-free repeat raised %s: %s"
+                                            % (where, type(exc).__name__, exc), knob=has_knob)
+                        got = sub.world.contents()
+                        for loc in spec.leaves:
+                            if not same(got[loc], st.info.values[loc]) or not same(got[loc], post[loc]):
+                                raise Violation(prop + (".recover_knob" if has_knob else ".recover"),
+                                                "%s: after the fault-free repeat %s holds %r, expected %r"
+                                                % (where, path_str(loc), got[loc], st.info.values[loc]), knob=has_knob)
+                        if C18._norm(sub.world, tr) != W and not has_knob:
+                            raise Violation(prop + ".repeat_trace", "%s: the repeat did not run the same accesses as a fault-free update" % where)
+                        d = O.diff_support(O.support(sub.world.mgr), O.support(ref.world.mgr))
+                        if d or O.definitions(sub.world.mgr) != O.definitions(ref.world.mgr):
+                            raise Violation(prop + ".repeat_state", "%s: definitions/indices after the repeat differ from a fault-free update: %s" % (where, d))
+        except Violation as v:
+            return {"violation": dict(v.to_json(), step=ci), "nontrivial": nfaults > 0, "stats": stats,
+                    "extra": {"counters": {"faulted_executions": nfaults}}, "trace_digest": None}
+        return {"violation": None, "nontrivial": nfaults > 0, "stats": stats,
+                "extra": {"counters": {"faulted_executions": nfaults}}, "trace_digest": digest(sorted(stats.items()))}
+
+    @staticmethod
+    def _norm(world, trace):
+        """Events with the container's serial number replaced by its path (serials differ between re-executions)."""
+        return [(ev[0], world.sidpath.get(ev[1], ev[1]), ev[2]) for ev in trace]
+
+    @staticmethod
+    def _check_faulted(sub, fst, W, j, kind, before, strict, where, has_knob):
+        prop = "C18"
+        if fst is None:
+            raise Violation(prop + ".harness", "%s: model rejected the op on replay" % where)
+        exc = fst.exc
+        if exc is None:
+            raise Violation(prop + ".swallowed", "%s: the injected failure did not reach the caller (call returned normally)" % where)
+        if exc is not _Ctx.fired:
+            raise Violation(prop + ".other_exception", "%s: caller got %s: %s instead of the injected failure"
+                            % (where, type(exc).__name__, exc))
+        tr = C18._norm(sub.world, fst.trace)
+        exp = list(W[:j]) + [("X" + kind,) + tuple(W[j][1:])]
+        if [tuple(e) for e in tr] != [tuple(e) for e in exp]:
+            n = 0
+            while n < min(len(tr), len(exp)) and tuple(tr[n]) == tuple(exp[n]):
+                n += 1
+            raise Violation(prop + ".prefix", "%s: accesses after the failure or a different schedule: event %d is %s, expected %s (trace length %d, expected %d)"
+                            % (where, n, tr[n] if n < len(tr) else None, exp[n] if n < len(exp) else None, len(tr), len(exp)))
+        mgr = sub.world.mgr
+        t2, e2 = run_traced(lambda: mgr.verify())
+        if e2 is not None:
+            raise Violation(prop + ".verify", "%s: verify() fails after the failed update: %s" % (where, e2))
+        d = O.diff_support(O.support(mgr), O.support_from_tasks(mgr.tasks.values()))
+        if d:
+            raise Violation(prop + ".index", "%s: indices inconsistent with the registered tasks after the failed update: %s" % (where, d))
+        if strict and before is not None:
+            after = O.snapshot(sub.world)
+            a = dict(after)
+            b = dict(before)
+            a.pop("contents")
+            b.pop("contents")
+            a["contents"] = b["contents"] = {}
+            d = O.diff_snapshot(b, a, same)
+            if d:
+                raise Violation(prop + ".state_changed", "%s: %s" % (where, d))
+
+
+DRIVERS["C18"] = C18
+
+
+# ---------------------------------------------------------------------------
+# C17: freeze at every position; every mutating entry point must fail atomically
+# ---------------------------------------------------------------------------
+def classify_frozen(model, op):
+    """'mutator' (would add/replace/remove a task -> must raise ValueError), 'plain' (value assignment that
+    only propagates), 'neutral' (changes nothing), or None when the op is not applicable in this state."""
+    k = op[0]
+    if k in ("refresh", "cleanup", "verify", "clonechk"):
+        return "neutral"
+    try:
+        model_step(model.clone(), op, False)
+    except ModelReject:
+        return None
+    if k == "setv":
+        return "mutator" if op[1] in model.defs else "plain"
+    if k == "setc":
+        return "plain"
+    if k == "inpl":
+        if op[1] in model.defs:
+            return "mutator"
+        return "plain" if op[3][0] == "lit" else "mutator"
+    if k in ("load", "copyfrom"):
+        changes = any((p not in model.defs) or op[2] for p, _ in op[1])
+        # nothing to register: the call only re-runs every task (a linear knob then rewrites its targets
+        # as floats), which the model follows like any other propagation
+        return "mutator" if changes else "plain"
+    return "mutator"
+
+
+class C17:
+    prop = "C17"
+    shrink_parts = ("freeze", "ops")
+
+    @staticmethod
+    def generate(ctx, run):
+        rc = rng_for(ctx.seed, "C17", run, "cfg")
+        cfg = swarm_config(rc, ctx.tier, g_restricted=True)
+        cfg["n_ops"] = min(cfg["n_ops"], 24 if ctx.tier == "quick" else 40)
+        spec = gen_spec(rng_for(ctx.seed, "C17", run, "spec"), cfg)
+        hg = HistoryGen(rng_for(ctx.seed, "C17", run, "ops"), cfg, spec)
+        ra = rng_for(ctx.seed, "C17", run, "attempts")
+        aw = dict(cfg["weights"])
+        aw.update({"sete": 30, "setv": 30, "inpl": 15, "unreg": 15, "regf": 8, "unregf": 8, "regk": 6, "unregk": 6,
+                   "load": 10, "setc": 4, "refresh": 0, "cleanup": 0, "verify": 0})
+        hg.eg.no_eqne = True
+        ops = []
+        freeze = []
+
+        def attempts():
+            keep = hg.cfg["weights"]
+            hg.cfg["weights"] = aw
+            out = []
+            for _ in range(5):
+                a = hg.propose()
+                if a is not None and classify_frozen(hg.model, a) is not None:
+                    out.append(a)
+            hg.cfg["weights"] = keep
+            # a copy_expr_from attempt built from the current definitions and one new one
+            free = [l for l in spec.leaves if l not in hg.model.ft_target and l not in hg.model.kn_target]
+            if free:
+                p = ra.choice(free)
+                a = ("copyfrom", ((p, hg.eg.gen(spec.leaf_type[p], 1, True)),), ra.random() < 0.7)
+                if classify_frozen(hg.model, a) is not None:
+                    out.append(a)
+            out.append(("refresh",))
+            out.append((ra.choice(["verify", "cleanup", "clonechk"]),))
+            ra.shuffle(out)
+            return out
+
+        for i in range(cfg["n_ops"] + 1):
+            freeze.append((i, tuple(attempts())))
+            if i == cfg["n_ops"]:
+                break
+            got = hg.history(n_ops=1)
+            if not got:
+                break
+            ops.extend(got)
+        freeze = [f for f in freeze if f[0] <= len(ops)]
+        return {"cfg": cfg, "spec": spec.to_json(), "ops": ops, "freeze": freeze}
+
+    @staticmethod
+    def execute(ctx, case):
+        prop = "C17"
+        xd = ctx.xd
+        spec = Spec.from_json(case["spec"])
+        cfg = case["cfg"]
+        ops = case["ops"]
+        stats = {}
+        n_mut = 0
+
+        def count(k, n=1):
+            stats[k] = stats.get(k, 0) + n
+
+        p = None
+        try:
+            for p, atts in case["freeze"]:
+                if p > len(ops):
+                    continue
+                ex = Exec(xd, spec, True, cfg["salt"])
+                diverged = False
+                for op in ops[:p]:
+                    st = ex.step(op)
+                    if st is not None and st.exc is not None:
+                        diverged = True
+                        break
+                if diverged:
+                    continue
+                w = ex.world
+                mgr = w.mgr
+                mgr.freeze_tree()
+                count("freeze_points")
+                for a in atts:
+                    cls = classify_frozen(ex.model, a)
+                    if cls is None:
+                        continue
+                    where = "frozen after %d ops, %s %s" % (p, a[0], path_str(a[1]) if len(a) > 1 and isinstance(a[1], tuple) and a[1] and isinstance(a[1][0], str) else "")
+                    if cls == "plain":
+                        st = ex.step(a)
+                        if st is None:
+                            continue
+                        count("plain_assignments_while_frozen")
+                        if st.exc is not None:
+                            raise Violation(prop + ".plain_raises", "%s: a plain value assignment raised %s: %s"
+                                            % (where, type(st.exc).__name__, st.exc))
+                        if st.info.trig:
+                            count("plain_with_dependants")
+                        ex.check_contents(st.info.values, where, st.info, prop)
+                        continue
+                    before = O.snapshot(w)
+                    if a[0] == "clonechk":
+                        tr, exc = run_traced(lambda: mgr.clone())
+                    else:
+                        tr, exc = run_traced(lambda: w.apply(a))
+                    after = O.snapshot(w)
+                    d = O.diff_snapshot(before, after, same)
+                    if cls == "mutator":
+                        n_mut += 1
+                        count("mutator:" + a[0])
+                        if exc is None:
+                            raise Violation(prop + ".no_error", "%s: the call returned normally on a frozen manager%s"
+                                            % (where, " and changed state: " + d if d else ""))
+                        if not isinstance(exc, ValueError):
+                            raise Violation(prop + ".wrong_error", "%s: raised %s: %s instead of ValueError"
+                                            % (where, type(exc).__name__, exc))
+                        if d:
+                            raise Violation(prop + ".not_atomic", "%s: raised ValueError but %s" % (where, d))
+                    else:
+                        count("neutral:" + a[0])
+                        if exc is not None:
+                            raise Violation(prop + ".neutral_raises", "%s: %s raised %s: %s on a frozen manager (it changes no definition)"
+                                            % (where, a[0], type(exc).__name__, exc))
+                        if d:
+                            raise Violation(prop + ".neutral_changes", "%s: %s changed state: %s" % (where, a[0], d))
+                    if not mgr._tree_frozen:
+                        raise Violation(prop + ".unfrozen", "%s: the manager is no longer frozen" % where)
+                # ---- unfreeze and continue: must behave as if never frozen ---------------------
+                mgr.unfreeze_tree()
+                for j, op in enumerate(ops[p:]):
+                    st = ex.step(op)
+                    if st is None:
+                        continue
+                    where = "after unfreezing at %d, op %d (%s)" % (p, p + j, op[0])
+                    if st.exc is not None:
+                        raise Violation(prop + ".after_unfreeze_exception", "%s raised %s: %s" % (where, type(st.exc).__name__, st.exc))
+                    ex.check_contents(st.info.values, where, st.info, prop)
+                twin = O.build_fresh_twin(World, xd, spec, ex.model, w, cfg["salt"])
+                d = O.diff_support(O.support(mgr), O.support(twin.mgr))
+                if d or O.definitions(mgr) != O.definitions(twin.mgr):
+                    raise Violation(prop + ".after_unfreeze_state", "after unfreezing at %d and finishing the history: %s" % (p, d or "definitions differ"))
+        except Violation as v:
+            return {"violation": dict(v.to_json(), step=p), "nontrivial": n_mut > 0, "stats": stats,
+                    "extra": {"counters": {"mutating_calls_on_frozen": n_mut}}, "trace_digest": None}
+        return {"violation": None, "nontrivial": n_mut > 0, "stats": stats,
+                "extra": {"counters": {"mutating_calls_on_frozen": n_mut}}, "trace_digest": digest(sorted(stats.items()))}
+
+
+DRIVERS["C17"] = C17
